@@ -46,3 +46,93 @@ Proof.
   - unfold ex_secs. cbn. repeat (constructor; [|repeat constructor; unfold start_le, ple; cbn; lia]). constructor.
   - eexists. vm_compute. reflexivity.
 Qed.
+
+(* ------------------------------------------------------------------------------------------
+   Second half: the BYTES the writer lays out, read back by the reader's pointer-chasing,
+   deque-driven search (Proofs/RTreeCodec, RTreeSearch, RTreeShape, RTreeLayout). *)
+From BT Require Import Base.LE Proofs.RTreeCodec Proofs.RTreeSearch Proofs.RTreeShape Proofs.RTreeLayout.
+
+(* Fixed-width little-endian codec round trip, any width. *)
+Theorem C05_dec_enc_le : forall w x, x < 256 ^ N.of_nat w -> dec_le (enc_le w x) = x.
+Proof. exact dec_enc_le. Qed.
+Print Assumptions C05_dec_enc_le.
+
+(* read_node on an image holding a leaf's bytes at [off] returns that leaf's items
+   (sect_ok: chrom/start/end < 2^32, offset/size < 2^64; the count fits u16). *)
+Theorem C05_read_leaf : forall img off l, has_at img off (leaf_bytes l) -> Nlen l < U16 -> Forall sect_ok l ->
+  read_node false img off = Ok (PLeaf (map li_of l)).
+Proof. exact read_leaf. Qed.
+Print Assumptions C05_read_leaf.
+
+(* ... and on a non-leaf node's bytes returns its (span, child pointer) items. *)
+Theorem C05_read_inner : forall img off items, has_at img off (inner_bytes items) -> Nlen items < U16 ->
+  Forall (fun it => span_ok (fst it) /\ snd it < U64) items ->
+  read_node false img off = Ok (PInner items).
+Proof. exact read_inner. Qed.
+Print Assumptions C05_read_inner.
+
+(* Reader: if the image represents a tree at [root] (reading there gives the tree's items and each
+   child pointer leads to an offset representing the corresponding child), the deque-driven search
+   returns exactly the abstract search's blocks, in order, for every fuel above the node count. *)
+Theorem C05_search_represented : forall img q qs qe h t root, rep h img root t ->
+  forall fuel, (tsize t < fuel)%nat ->
+    search_bytes fuel false img root q qs qe = Ok (blocks_of (search_tree q qs qe t)).
+Proof. exact search_bytes_rep. Qed.
+Print Assumptions C05_search_represented.
+
+(* itertools' chunks(b): every chunk but the last has exactly b elements. *)
+Theorem C05_chunks_all_but_last_full : forall (b : nat) (l : list sect), (0 < b)%nat ->
+  abl (fun c => length c = b) (chunks b l).
+Proof. exact (@chunks_abl sect). Qed.
+Print Assumptions C05_chunks_all_but_last_full.
+
+(* Shape of built trees: uniform height = levels, and on every level every node but the LAST is
+   full (occupies exactly the full-node size), no node has more than b entries, and every recorded
+   field is in range.  This is what write_tree's child-pointer formula relies on silently. *)
+Theorem C05_built_shape : forall b secs t lv, (0 < b)%nat -> secs <> [] -> Forall sect_ok secs ->
+  build b secs = Ok (t, lv) ->
+  height lv t /\ forall d, (d <= lv)%nat ->
+    abl (fun n => nsize n = nfull (N.of_nat b) d) (level_nodes lv d t) /\ Forall (node_ok b) (level_nodes lv d t).
+Proof.
+  intros b secs t lv Hb Hne Hok Hbuild. apply shaped_single. exact (build_shaped b secs t lv Hb Hne Hok Hbuild).
+Qed.
+Print Assumptions C05_built_shape.
+
+(* Layout consistency: the index bytes of a built tree, placed at file position pos inside any
+   larger image, represent that tree at pos+48 — every child pointer written
+   (childnode_offset + idx * full_size) is the offset at which that child was written — provided
+   the index ends below 2^64 (so that the 8-byte pointers do not wrap). *)
+Theorem C05_layout_represents : forall (b ips pos : N) (secs : list sect) t levels,
+  0 < b < U16 -> secs <> [] -> Forall sect_ok secs ->
+  build (N.to_nat b) secs = Ok (t, levels) ->
+  exists bs, rtree_bytes b ips pos t levels (Nlen secs) = Ok bs
+    /\ 48 + 4 * N.of_nat (tsize t) <= Nlen bs
+    /\ (pos + Nlen bs <= U64 -> forall pre post, Nlen pre = pos ->
+          rep levels (pre ++ bs ++ post) (pos + 48) t).
+Proof. exact layout_represents. Qed.
+Print Assumptions C05_layout_represents.
+
+(* The full statement: for every fan-out 2 <= b <= 65535 (the count field is a u16), every
+   non-empty start-sorted section list with fields in range, writing the index at any position pos
+   succeeds, and — if the index ends below 2^64 — searching those bytes from the root offset pos+48,
+   whatever bytes precede and follow the index, returns exactly the linear scan's blocks in file
+   order, for every query and every fuel >= the index's length in bytes (never Fuel, Err or Panic). *)
+Theorem C05_search_bytes_eq_scan : forall (b ips pos : N) (secs : list sect),
+  2 <= b <= 65535 -> secs <> [] -> sorted_starts (map sect_span secs) -> Forall sect_ok secs ->
+  exists bs levels, write_index b ips pos secs = Ok (bs, levels)
+    /\ (pos + Nlen bs <= U64 ->
+        forall pre post q qs qe fuel, Nlen pre = pos -> (length bs <= fuel)%nat ->
+          search_bytes fuel false (pre ++ bs ++ post) (pos + 48) q qs qe = Ok (scan secs q qs qe)).
+Proof. exact search_bytes_eq_scan. Qed.
+Print Assumptions C05_search_bytes_eq_scan.
+
+(* Non-vacuity: the three-level instance above meets the additional hypotheses, with the index
+   at position 64. *)
+Example C05_bytes_example_hyps : 2 <= 2 <= 65535 /\ Forall sect_ok ex_secs
+  /\ exists bs, write_index 2 1 64 ex_secs = Ok (bs, 3%nat) /\ 64 + Nlen bs <= U64 /\ Nlen bs = 620.
+Proof.
+  split; [lia|]. split.
+  - apply Forall_forall. intros s Hs. vm_compute in Hs.
+    repeat (destruct Hs as [<-|Hs]; [vm_compute; repeat split; reflexivity|]). destruct Hs.
+  - eexists. split; [vm_compute; reflexivity|]. split; vm_compute; [discriminate|reflexivity].
+Qed.
